@@ -19,6 +19,8 @@ OWNER = {
     "wrong_content": "C15",
     "reopen_refused": "C15",
     "commit_never_returns": "C17",
+    "close_never_returns": "C17",
+    "acknowledged_commit_lost": "C02",
     "panic_in_commit": "C17",
     "panic": "C17",
     "engine_error": "C17",
@@ -128,6 +130,15 @@ def directed(ctx):
     ctx.cov["directed_counterexamples"] = s["cases"]
 
 
+def close_race(ctx):
+    """directed: a commit parked at each yield point of the pipeline while close() runs (with and without flush_on_close);
+    an acknowledged commit must be there after reopen, close() and commit() must both return."""
+    for args in ([], ["--flush-on-close"]):
+        s = core.run_driver("close_race", args, timeout=600)
+        ctx.add_driver(s)
+        _report(ctx, s, "close_race", args)
+
+
 def size_sweep(ctx, cases):
     s = core.run_driver("commit_size_sweep", ["--seed", ctx.seed, "--cases", cases], timeout=1200)
     ctx.add_driver(s)
@@ -136,6 +147,10 @@ def size_sweep(ctx, cases):
 
 
 def replay(ctx, rp):
+    if rp.get("driver") == "close_race":
+        s = core.run_driver("close_race", rp.get("args", []))
+        _report(ctx, s, "close_race", rp.get("args", []))
+        return
     if rp.get("driver") == "commit_size_sweep":
         s = core.run_driver("commit_size_sweep", ["--case", json.dumps(rp["case"])])
         _report(ctx, s, "commit_size_sweep")
